@@ -293,6 +293,34 @@ type WManyPtrTypes struct {
 	M2 *map[string]int64
 }
 
+// the same without times and wrappers (for drivers that feed random bytes: a random string is not a timestamp)
+type WManyPtrTypesNoTime struct {
+	A1 *int64
+	B1 *int32
+	C1 *int16
+	D1 *float32
+	E1 *float64
+	F1 *bool
+	G1 *string
+	I1 *mpA
+	J1 *mpB
+	L1 *[]int64
+	M1 *map[string]int64
+	N1 *[]byte
+	A2 *int64
+	B2 *int32
+	C2 *int16
+	D2 *float32
+	E2 *float64
+	F2 *bool
+	G2 *string
+	I2 *mpA
+	J2 *mpB
+	L2 *[]int64
+	M2 *map[string]int64
+	N2 *[]byte
+}
+
 // several pointers to wrapper / time types in one record (their slots come from the same bank)
 type WPtrTimes struct {
 	A *time.Time
